@@ -37,8 +37,8 @@ _REAL = None
 class CZ(decio.Concretiser):
     """adds int ids (k*), jetset module words, real-particle names (R*), float-only literals"""
 
-    def __init__(self, rng):
-        super().__init__(rng)
+    def __init__(self, rng, base=None, conj_matters=False):
+        super().__init__(rng, base=base, conj_matters=conj_matters)
         self.ints = {}
         self.uints = {}
         global _REAL
@@ -46,7 +46,7 @@ class CZ(decio.Concretiser):
             _REAL = real_particles()
 
     def name(self, a):
-        if a.startswith("R") and a not in self.names:
+        if a.startswith("R") and a[1:].isdigit() and a not in self.names:
             self._bind(a, self._pick(_REAL))
         return super().name(a)
 
@@ -101,7 +101,7 @@ def render_val(cz, v, jet=False):
 
 def render(cz, s):
     k = s["k"]
-    if k in ("Alias", "ChargeConj", "CopyDecay", "Define", "CDecay", "Decay"):
+    if k in ("Alias", "ChargeConj", "CopyDecay", "Define", "CDecay", "Decay", "ModelAlias"):
         return decio.render_stmt(cz, s)
     if k == "Particle":
         return f"Particle {cz.name(s['m'])} {cz.lit(s['mass'])}" + ("" if s["width"] == "none" else f" {cz.lit(s['width'])}")
